@@ -27,6 +27,22 @@ def canon_out(x):
     if isinstance(x, pd.Series): return ["series", [cell(v) for v in x]]
     return ["value", repr(x)]
 
+def cyclic(edges):
+    """does the directed graph have a cycle (the walks of find_relatives without a cut-off never end on one)"""
+    adj = {}
+    for a, b in edges: adj.setdefault(a, []).append(b)
+    state = {}
+    for s in list(adj):
+        if s in state: continue
+        stack = [(s, iter(adj.get(s, [])))]; state[s] = 1
+        while stack:
+            n, it = stack[-1]
+            for m in it:
+                if state.get(m) == 1: return True
+                if m not in state: state[m] = 1; stack.append((m, iter(adj.get(m, [])))); break
+            else: state[n] = 2; stack.pop()
+    return False
+
 def operations(rng, G, g):
     """a random read-only operation as (name, thunk)"""
     from opcua_tools import navigation as nav
@@ -48,9 +64,15 @@ def operations(rng, G, g):
     if k == "relatives":
         cut = rng.choice([None, 1, 2]); keep = rng.random() < 0.5
         hs = G.references[G.references["ReferenceType"] == G.reference_type_by_browsename("HasSubtype")]
+        if cut is None and cyclic(zip(hs["Src"], hs["Trg"])): cut = 2
         return ("relatives", cut, keep), lambda: nav.find_relatives(G.nodes[["id"]].head(3), "id", hs, "descendant", cutoff=cut, keep_paths=keep)
     if k == "paths":
         root = rng.choice(objs) if objs else "Objects"
+        try:
+            tys = [G.reference_type_by_browsename(n) for n in ("HasComponent", "Organizes")]
+            pr = G.references[G.references["ReferenceType"].isin(tys)]
+            if cyclic(zip(pr["Src"], pr["Trg"])): return operations(rng, G, g)       # the walk would never end: another operation instead
+        except Exception: pass
         return ("paths", root), lambda: G.create_node_paths_by_reference_types(root, ["HasComponent", "Organizes"])
     if k == "neighbours":
         i = int(rng.choice(list(G.nodes["id"]))); rel = rng.choice(["outgoing", "incoming"])
